@@ -341,3 +341,14 @@ pub open spec fn v1_display(a: V1Addresses) -> Seq<u8> {
     }
 }
 
+
+/// the canonical line appended piece by piece (the order in which a formatter receives it)
+pub open spec fn v1_display_onto(o: Seq<u8>, a: V1Addresses) -> Seq<u8> {
+    match a {
+        V1Addresses::Unknown => o + (b_proxy() + sp() + b_unknown() + b_crlf()),
+        V1Addresses::Tcp4(x) => o + (b_proxy() + sp() + b_tcp4() + sp()) + display_ipv4(x.source_address) + sp() + display_ipv4(x.destination_address)
+            + sp() + display_u16(x.source_port) + sp() + display_u16(x.destination_port) + b_crlf(),
+        V1Addresses::Tcp6(x) => o + (b_proxy() + sp() + b_tcp6() + sp()) + display_ipv6(x.source_address) + sp() + display_ipv6(x.destination_address)
+            + sp() + display_u16(x.source_port) + sp() + display_u16(x.destination_port) + b_crlf(),
+    }
+}
